@@ -75,7 +75,7 @@ func sortClass(in string) bool { return hasByte(in, '%') || hasByte(in, '+') }
 // VerifC17IdemComposed: every profile composed from the canonicalizer's own options, all strings.
 func VerifC17IdemComposed() {
 	p := composedProfile()
-	in := windowInput(vnd.Param("C17.KComposed", 2, 3))
+	in := windowInput(vnd.Param("C17.KComposed", 2, 2))
 	msg, ok := verifCheckIdempotent(p, in)
 	vnd.Cover("canonicalized", ok)
 	if msg != "" {
@@ -175,7 +175,7 @@ func webURL(hole, k int) string {
 	path := "/" + part(2, unreserved, "a") + "/" + part(3, unreserved, "b")
 	var hasCred, hasQuery, hasFrag bool
 	pi := 0
-	if vnd.Param("C17.FullShapes", 0, 1) == 1 {
+	if vnd.Param("C17.FullShapes", 0, 0) == 1 {
 		hasCred, pi, hasQuery, hasFrag = vnd.Pick(2) == 1, vnd.Pick(3), vnd.Pick(2) == 1, vnd.Pick(2) == 1
 	} else {
 		switch vnd.Pick(5) {
